@@ -441,6 +441,11 @@ func (sh *SequenceHandler) Check(seqNum uint32) error {
 		diff := seqNum - sh.highest
 		// Shift bitmap by diff
 		sh.bitMap <<= diff
+		// Mark the previous highest sequence number as received,
+		// if it is still within the view.
+		if diff <= 64 {
+			sh.bitMap |= 1 << (diff - 1)
+		}
 		// Update highest value
 		sh.highest = seqNum
 		return nil
